@@ -14,6 +14,7 @@ import SarpyModel.Props.C09H
 import SarpyModel.Props.C09W
 import SarpyModel.Props.C09Image
 import SarpyModel.Props.C09Wf
+import SarpyModel.Props.C09Amp
 
 namespace Sarpy.Props.C11
 open Sarpy.Spec.CphdLayout Sarpy.Spec.CrsdHeader Sarpy.Spec.CphdHeaderText Sarpy.Spec.CphdWriter
@@ -76,5 +77,13 @@ theorem crsd_close_report_exact (c : Cfg α) (s : State α) (hc : s.closed = fal
 theorem crsd_complete_image (c : Cfg α) (D : Nat → Nat → α) (hwf : C09.WF c) (ops : List (Op α)) (hg : C09.GoodRun c D (init c) ops)
     (hcl : (run c (init c) ops).closed = true) (hco : C09.Complete c (run c (init c) ops)) (p : Nat) :
     rd c (run c (init c) ops) p = C09.imageOf c D p := C09.complete_image c D hwf ops hg hcl hco p
+
+/-- CRSDWriter1 inherits `write_pvp_array` and the signal write path: a formatted chunk is encoded with the AmpSF of the last accepted PVP
+    write for its channel at that time -/
+theorem crsd_formatted_chunk_uses_last_accepted_pvp (c : Cfg α) (i r0 : Nat) (hi : i < c.nchan) (ops : List (Op α)) (d : Blk α)
+    (hok : ¬ sigBad c (run c (init c) ops) i r0 d false) :
+    (((step c (run c (init c) ops) (.writeSig i r0 d false)).1).el (c.sigIdx i)).scaled.head? =
+      some (r0, d.len / (c.item (c.sigIdx i)).rowBytes, C09.lastAmp c i (init c) ops none) :=
+  C09.formatted_chunk_uses_last_accepted_pvp c i r0 hi ops d hok
 
 end Sarpy.Props.C11
